@@ -183,7 +183,7 @@ def u_iter_unordered(ctx, given):
 
 
 @unit(P, "load_patches", fuc=["yaw.catalog.catalog:load_patches", "yaw.catalog.catalog:get_id_from_patch_path",
-                             "yaw.catalog.catalog:read_patch_ids"], cases=[dict(centers=False), dict(centers=True)],
+                             "yaw.catalog.catalog:read_patch_ids"], cases=[dict(centers=False), dict(centers=True), dict(centers="catalog")],
       trusted=["iter_unordered contract"])
 def u_load_patches(ctx, centers):
     """the result maps the id parsed from each path to the patch built from that path (and the centre paired with
@@ -211,6 +211,16 @@ def u_load_patches(ctx, centers):
         AC = mod("yaw.coordinates").AngularCoordinates
         cen = AC.__new__(AC)
         cen.data = SArr.fresh(ctx, "centers", (n, 2), "f")
+    given = cen
+    if centers == "catalog":
+        # centres taken from another catalog: the same pairing and the same guard must apply
+        class CatTok(C.Catalog):
+            def __init__(self):
+                pass
+
+            def get_centers(self):
+                return cen
+        given = CatTok()
     from pyvc.arrays import SList
     from pyvc.fsmodel_sym import SymFS
     fs = SymFS(ctx)
@@ -222,7 +232,7 @@ def u_load_patches(ctx, centers):
         pt.set(C, "Patch", PatchTok)
         pt.set(C, "read_patch_ids", lambda d: SList(ids))
         ctx.canary()
-        res = call(C.load_patches, C.Path("/cache"), patch_centers=cen, progress=False, max_workers=ctx.fresh_int("max_workers", lo=1))
+        res = call(C.load_patches, C.Path("/cache"), patch_centers=given, progress=False, max_workers=ctx.fresh_int("max_workers", lo=1))
         if centers and isinstance(res, Raised) and isinstance(res.exc, ValueError):
             # a centre without objects (ids are not 0..n-1) is rejected: the positional pairing would be wrong (C09/C12)
             ctx.check(f"{name}/post_exc[ValueError]:only_if_ids_are_not_0..n-1",
@@ -351,7 +361,9 @@ def _real_runs(worker_counts=(1, 2, 4), orders=("natural", "reversed", "rotated"
         sizes = [260, 40, 40, 40, 40, 30, 30, 30]   # one big patch: finishes last under natural scheduling
         pid = np.concatenate([np.full(s, k) for k, s in enumerate(sizes)])
         n = len(pid)
-        df = pd.DataFrame(dict(ra=rng.uniform(0, 6, n) + 8 * pid, dec=rng.uniform(-3, 3, n), z=rng.uniform(0.1, 1.0, n),
+        zz = rng.uniform(0.1, 1.0, n)
+        zz[::7] = rng.choice(np.linspace(0.1, 1.0, 4), size=len(zz[::7]))     # the edges Configuration.create(..., num_bins=3) generates
+        df = pd.DataFrame(dict(ra=rng.uniform(0, 6, n) + 8 * pid, dec=rng.uniform(-3, 3, n), z=zz,
                                w=10.0 ** rng.uniform(-3, 3, n), pid=pid))   # weights over 6 decades: sums are sensitive to their order
         os.environ["YAW_NUM_THREADS"] = "1"
         ref = yaw.Catalog.from_dataframe(tmp + "/ref", df, ra_name="ra", dec_name="dec", redshift_name="z", weight_name="w", patch_name="pid")
@@ -359,7 +371,9 @@ def _real_runs(worker_counts=(1, 2, 4), orders=("natural", "reversed", "rotated"
                                          weight_name="w", patch_centers=ref)
         rand = yaw.Catalog.from_dataframe(tmp + "/rnd", df.assign(ra=df.ra + 0.1), ra_name="ra", dec_name="dec", redshift_name="z",
                                           patch_centers=ref)
-        cfg = yaw.Configuration.create(rmin=500, rmax=5000, zmin=0.1, zmax=1.0, num_bins=3)
+        # not the default closed side, and redshifts exactly on the bin edges: a binning that loses its closed side on the
+        # way to a worker process gives different trees / histograms than the sequential run
+        cfg = yaw.Configuration.create(rmin=500, rmax=5000, zmin=0.1, zmax=1.0, num_bins=3, closed="left")
         for nw in worker_counts:
             for order in orders if nw > 1 else ("natural",):
                 os.environ["YAW_NUM_THREADS"] = str(nw)
@@ -434,4 +448,32 @@ def _register_shared():
                                      "yaw.catalog.catalog:Catalog.get_num_records", "yaw.catalog.catalog:Catalog.get_sum_weights"], kind="bounded")(_C12.u_accessors)
 
 
-_register_shared()
+# _register_shared() is called by the driver after this module is fully imported (no import cycles)
+
+
+# ---------------------------------------------------------------------------------------------------------
+# what travels to worker processes: the pickled state is the whole state
+# ---------------------------------------------------------------------------------------------------------
+
+@unit(P, "pickle_state", fuc=["yaw.binning:Binning.__getstate__", "yaw.binning:Binning.__setstate__", "yaw.catalog.patch:Patch.__getstate__",
+                             "yaw.catalog.patch:Patch.__setstate__", "yaw.correlation.corrdata:SampledData.__getstate__", "yaw.correlation.corrdata:SampledData.__setstate__"])
+def u_pickle_state(ctx):
+    """objects handed to worker processes (binning, patches, sampled data) are rebuilt from __getstate__ with every attribute
+    they carry - nothing falls back to a constructor default on the other side of the process boundary (ASSUMED: pickle applies
+    __setstate__ to the result of __getstate__ on a fresh instance)"""
+    B, PA, CD = mod("yaw.binning"), mod("yaw.catalog.patch"), mod("yaw.correlation.corrdata")
+    ctx.canary()
+    for cls, attrs in ((B.Binning, ("edges", "closed")), (PA.Patch, ("meta", "cache_path", "_chunk_info")), (CD.SampledData, ("binning", "data", "samples"))):
+        declared = tuple(getattr(cls, "__slots__", ())) or attrs
+        ctx.check(f"C05/pickle_state/{cls.__name__}/fixture_covers_all_declared_attributes", set(attrs) >= set(a for a in declared if not a.startswith("__")),
+                  detail=f"declared {declared}")
+        src = cls.__new__(cls)
+        vals = {a: ("VALUE", cls.__name__, a) for a in attrs}
+        for a, v in vals.items():
+            setattr(src, a, v)
+        state = expect_no_exception(ctx, call(src.__getstate__), f"C05/{cls.__name__}.__getstate__")
+        dst = cls.__new__(cls)
+        expect_no_exception(ctx, call(dst.__setstate__, state), f"C05/{cls.__name__}.__setstate__")
+        for a, v in vals.items():
+            ctx.check(f"C05/pickle_state/{cls.__name__}/attribute_{a}_survives", getattr(dst, a, None) is v,
+                      detail="an attribute that is not in the pickled state comes back as a default in the worker process")
